@@ -7,7 +7,7 @@ from ..core import canon, e1, inputs, roundtrip
 PROPERTY = "C11"
 LEVEL = "exploration"
 RULE = (
-    "inputs = example corpus + generated family (shapes, wrap, DLM) + one-step mutations (duplicated / blank / "
+    "inputs = example corpus + generated family (shapes, wrap, DLM) + alias spellings of one depth unit on the index curve vs STRT/STOP/STEP (round 8) + one-step mutations (duplicated / blank / "
     "case-variant mnemonics, unit .1IN, emptied values, lengthened fields) + version shapes (VERS 1.0 / 1.2 / 2.0 / 2.1 / 3.0, duplicated VERS / WRAP lines, WRAP flag in other letter cases over 5 / 7 / 14 curves, values with runs of blanks, ~Other ending in blank lines); every input x every writer configuration "
     "in the k-deviation ball of (version, wrap, fmt, column_fmt, len_numeric_field, spacer, lhs_spacer, data_width, "
     "mnemonics_header, data_section_header), and under mnemonic_case lower/preserve for three configurations: l1=read(x), t1=write(l1), l2=read(t1), t2=write(l2), l3=read(t2) ... up to "
@@ -23,16 +23,28 @@ CYCLES = 4
 
 
 def bounds(tier):
-    return {"inputs": len(inputs.all_inputs(tier)), "configurations": len(roundtrip.configs(1 if tier == "quick" else 2)),
+    return {"inputs": len(_inputs(tier)), "configurations": len(roundtrip.configs(1 if tier == "quick" else 2)),
             "deviation_bound": 1 if tier == "quick" else 2, "cycles": CYCLES}
 
 
 _IN = {}
 
 
+def _alias_unit_inputs():
+    """Round 8: index-curve unit and STRT/STOP/STEP units that are different spellings of one depth unit (F/FT/FEET,
+    M/METERS, letter case): whichever spelling write() settles on, it has to stay settled from the second cycle on."""
+    out = []
+    for cu, hu in (("F", "FT"), ("FT", "F"), ("M", "METERS"), ("METERS", "M"), ("m", "M"), ("FEET", "ft"), ("F", "FT/M")):
+        out.append(("aliasunits:curve=%s:header=%s" % (cu, hu),
+                    "~Version\nVERS. 2.0 : version\nWRAP. NO : wrap\n~Well\nSTRT.%s 1000.0 : start\nSTOP.%s 1001.0 : stop\n"
+                    "STEP.%s 0.5 : step\nNULL. -999.25 : null\nCOMP. ACME : company\n~Curve\nDEPT.%s : depth\nGR.GAPI : gamma\n"
+                    "~ASCII\n1000.0 10.5\n1000.5 -999.25\n1001.0 30.5\n" % (hu, hu, hu, cu)))
+    return out
+
+
 def _inputs(tier):
     if tier not in _IN:
-        _IN[tier] = inputs.all_inputs(tier)
+        _IN[tier] = inputs.all_inputs(tier) + _alias_unit_inputs()
     return _IN[tier]
 
 
